@@ -95,6 +95,12 @@ def stages(tier, seed):
     ]
     vg = sweep(rnd, 12 if quick else 27, ('ones',)) + gen_sizes(200 if quick else 700, 3 if quick else 1) + text(rnd, True)[:: (6 if quick else 2)]
     st.append(dict(label='valgrind', variant='rel', tool='valgrind', groups=[[c] for c in vg], floors=['AddAsmEntered', 'SubAsmEntered'], timeout=2400))
+    # Miri (UB interpreter incl. Stacked Borrows) on foreign targets for the non-asm unsafe code: the u64->u32 view in
+    # gen_biguint exists only with 64-bit digits (aarch64, big-endian s390x); from_utf8_unchecked on all
+    from ..cross import portable
+    mi = portable(gen_sizes(300 if quick else 1400, 7 if quick else 3) + text(rnd, True)[::(9 if quick else 3)] + sweep(rnd, 6 if quick else 11, ('ones',)))
+    st.append(dict(label='miri-aarch64', variant='miri-aarch64', tool='miri:aarch64', groups=[[c] for c in mi], shard_min=8, timeout=1800))
+    st.append(dict(label='miri-s390x', variant='miri-s390x', tool='miri:s390x', groups=[[c] for c in mi[::2]], shard_min=8, timeout=1800))
     if not quick:
         st.append(dict(label='guard-end-dbg', variant='guard-dbg', groups=[[c] for c in sw], env={'NBD_GUARD': 'end'}, floors=floors, timeout=2400))
         asan = gen_sizes(4160, 1) + sweep(rnd, 30, ('ones',)) + text(rnd, True)
